@@ -167,6 +167,9 @@ func replayTrCase(env *trEnv, c *trCase) (diff string) {
 	t.Resolver = res
 	t.TLSConfig = &tls.Config{RootCAs: env.pki.pool}
 	t.Dialer.MaxConcurrency = 1
+	if reverseWire { // "When Dialer is used by Transport, this value is ignored"
+		t.Dialer.Resolver = res
+	}
 	t.Dialer.DialFunc = func(ctx context.Context, network, addr string, tc *tls.Config) (*tls.Conn, error) {
 		mu.Lock()
 		dials = append(dials, Ev{"addr": addr, "sn": tc.ServerName})
